@@ -11,9 +11,13 @@ LIES = {"C01": ("verdict", "facts"), "C02": ("verdict", "table"), "C03": ("verdi
         "C16": ("escape", "names"), "C17": ("class", "rows"), "C18": ("returned", "answers"), "C19": ("listing", "histories"), "C20": ("state", "transitions")}
 
 
+# further phases with drivers of their own
+MORE = [("C03", "answer", "fs-histories"), ("C15", "proj", "overlapping-stores"), ("C14", "proj", "schedules-restore")]
+
+
 def main(tier, seed):
     bad = []
-    for pid, (lie, phase) in sorted(LIES.items()):
+    for pid, lie, phase in sorted([(p, l, ph) for p, (l, ph) in LIES.items()] + MORE):
         p = subprocess.run([sys.executable, os.path.join(VERIF, "tools", "vcheck.py"), pid, "--tier", "quick", "--lie", lie, "--only-phase", phase, "--no-evidence"],
                            cwd=VERIF, stdout=subprocess.PIPE, stderr=subprocess.STDOUT, text=True)
         caught = p.returncode == 1 and "VIOLATION" in p.stdout
